@@ -375,6 +375,34 @@ Theorem C11_victim_less_as_order :
 Proof. exact victim_less_as_order. Qed.
 Print Assumptions C11_victim_less_as_order.
 
+(* VictimQueueOrderFn as an order on QUEUES (gang-reclaim uses it directly): on two
+   queues with different names it is the sign of ONE valid 3-way comparator - the
+   victim comparators, then the reversed queue comparators, then reversed
+   (creation time, name) - hence a strict total order on differently named queues *)
+Theorem C11_victim_queue_order_as_cmp :
+  forall (queue_ts vq_ts : layout (item -> item -> Z))
+         (jobs : Z -> option vjob) (queues : Z -> option item) (pj : Z),
+  all_valid everywhere queue_ts -> all_valid everywhere (force_en_all vq_ts) ->
+  (forall q1 q2 a b, q1 <> q2 -> queues q1 = Some a -> queues q2 = Some b -> i_uid a <> i_uid b) ->
+  valid_on everywhere (cq queue_ts vq_ts) /\
+  forall a b, i_uid a <> i_uid b ->
+    victim_queue_order_fn vq_ts queue_ts a b = (cq queue_ts vq_ts a b <? 0) /\ cq queue_ts vq_ts a b <> 0.
+Proof. exact victim_queue_order_as_cmp. Qed.
+Print Assumptions C11_victim_queue_order_as_cmp.
+
+(* NOT covered by the victims theorems: sessions whose queue comparators are not
+   valid on ALL queues.  For the only shipped VictimQueueOrderFn (hierarchical
+   capacity) the victim order of three different queues is a 3-cycle when two
+   subtrees tie and the preemptor sits in a third one (reproduced on the real
+   plugin and on the real victims queue; part of the capacity-hierarchical finding) *)
+Theorem C11_victim_order_capacity_hier_refuted :
+  let vlt := victim_order_gen (one_slot (cmp_capacity_victim cap_w)) (one_slot cmp_capacity_hier) rq_tb in
+  cmp_capacity_victim cap_w cap_x cap_y = 0 /\ cmp_capacity_victim cap_w cap_y cap_z = 0 /\
+  vlt cap_y cap_x = true /\ vlt cap_z cap_y = true /\ vlt cap_x cap_z = true /\
+  vlt cap_x cap_y = false /\ vlt cap_y cap_z = false /\ vlt cap_z cap_x = false.
+Proof. exact victim_order_capacity_hier_refuted. Qed.
+Print Assumptions C11_victim_order_capacity_hier_refuted.
+
 (* ... which is a strict weak order on every victim set with pod names of one kind *)
 Theorem C11_victim_order_strict_weak :
   forall (task_ts job_ts queue_ts vq_ts : layout (item -> item -> Z)) jobs queues pj,
@@ -397,7 +425,8 @@ Theorem C11_victim_less_transitive :
     i_uid (vt_item l) <> i_uid (vt_item r) ->
     victim_less task_ts job_ts queue_ts vq_ts jobs queues pj l m = Some true ->
     victim_less task_ts job_ts queue_ts vq_ts jobs queues pj m r = Some true ->
-    forall b, victim_less task_ts job_ts queue_ts vq_ts jobs queues pj l r = Some b -> b = true.
+    victim_less task_ts job_ts queue_ts vq_ts jobs queues pj l r <> None ->
+    victim_less task_ts job_ts queue_ts vq_ts jobs queues pj l r = Some true.
 Proof. exact victim_less_transitive. Qed.
 Print Assumptions C11_victim_less_transitive.
 
